@@ -50,7 +50,7 @@ class Prop:
     id = "C41"
     level = "exploration"
     engine = "AIO+VT+TH (deterministic asyncio loop; virtual time; controlled threads for run())"
-    quick_runs = 20000
+    quick_runs = 50000
     thorough_runs = 600000
     quick_budget = 80.0
     chunk = 200
